@@ -182,11 +182,28 @@ def check_sendline(c, repo, cl):
     # the text: the (coerced) parameter is sent exactly once and before / together with the separator
     al = aliases_of(f)
 
+    # locals that hold the caller's text (the parameter itself, its coerced form, a copy): every binding of the local is computed from one
+    carriers, mixed = set([p]), set()
+    for _ in range(4):
+        binds = {}
+        for st in iter_nodes(f.node):
+            if isinstance(st, ast.Assign) and len(st.targets) == 1 and isinstance(st.targets[0], ast.Name):
+                binds.setdefault(st.targets[0].id, []).append(any(isinstance(x, ast.Name) and x.id in carriers for x in ast.walk(st.value)))
+        for x, bs in binds.items():
+            if x == p:
+                continue
+            if all(bs):
+                carriers.add(x)
+            elif any(bs):
+                mixed.add(x)
+
     def carries_text(k):
         for x in ast.walk(k.args[0]) if k.args else []:
-            if isinstance(x, ast.Name) and x.id == p:
+            if isinstance(x, ast.Name) and x.id in carriers:
                 return True
         return False
+    c.need(not any(isinstance(x, ast.Name) and x.id in mixed for n_, k in sends for x in ast.walk(k)),
+           '%s: a local that is sent holds the caller\'s text on some bindings only (%s)' % (f.qual, sorted(mixed)))
     txt = [(n, k) for n, k in sends if carries_text(k)]
     nt = set(n for n, k in txt)
     tmn, tmx = g.occurrences(lambda n: n in nt)
